@@ -377,6 +377,89 @@ func c18Word(c *explore.Ctx, base *explore.Base, bname, cfg string, word []explo
 	return nil
 }
 
+// c18FaultWord: the files must also follow the documented format when a write was hit by a transient I/O error
+// (nothing written, or - for a data write crossing a 512-byte-aligned file offset - written up to that offset) and
+// the application retried it and carried on: pad the current segment so that the next record straddles a sector
+// boundary, run op with the fault at mutating call #n, retry op, Put(b), clean Close, format oracle.
+// done = op makes fewer than n mutating calls.
+func c18FaultWord(c *explore.Ctx, base *explore.Base, bname, cfg string, o explore.Op, n int, part bool) (bool, *explore.Violation) {
+	s := base.NewSess()
+	s.FS.FailPartial = part
+	mk := func(msg string) *explore.Violation {
+		return &explore.Violation{
+			Key:    fmt.Sprintf("faulted-write base=%s cfg=%s op=%s fault@%d partial=%v", bname, cfg, o, n, part),
+			What:   fmt.Sprintf("base %s/%s, segment padded to 8 bytes before a sector boundary, %s with a transient I/O error at its mutating file-system call #%d (partial=%v), the same call retried, Put(b), clean Close: %s", bname, cfg, o, n, part, msg),
+			Size:   n,
+			Replay: map[string]interface{}{"kind": "faultwrite18", "base": bname, "cfg": cfg, "op": opsJSON([]explore.Op{o}), "fault_at": n, "partial": part, "observed": msg},
+		}
+	}
+	if err := s.OpenDB(); err != nil {
+		return true, mk("Open: " + err.Error())
+	}
+	if base.Cfg.MaxSeg == 0 {
+		sizes := map[string]int{}
+		for _, nm := range s.FS.NamesIn(explore.DBPath) {
+			sizes[nm] = len(s.FS.Bytes(explore.DBPath + "/" + nm))
+		}
+		pad := func(k string, vlen int) {
+			v := strings.Repeat("p", vlen)
+			if err := s.DB.Put([]byte(k), []byte(v)); err != nil {
+				c.HarnessError("padding Put: %v", err)
+			}
+			s.Model[k] = v
+		}
+		pad("pad-key-1", 1)
+		for _, nm := range s.FS.NamesIn(explore.DBPath) {
+			if sz := len(s.FS.Bytes(explore.DBPath + "/" + nm)); strings.HasSuffix(nm, ".psg") && sz != sizes[nm] {
+				const k2 = "pad-key-2"
+				pad(k2, ((504-sz-10-len(k2))%512+512)%512)
+			}
+		}
+	}
+	before := s.FS.Mutations()
+	s.FS.FailAt = before + n
+	err := s.Apply(o)
+	s.FS.FailAt = 0
+	if s.FS.Mutations() < before+n {
+		_ = s.ProtectedClose()
+		return true, nil
+	}
+	c.Add("executions", 1)
+	c.Add("fault_cases", 1)
+	c.Add("transitions", 4)
+	if s.Panicked != "" {
+		return false, mk(s.Panicked)
+	}
+	if err != nil {
+		if err := s.Apply(o); err != nil {
+			return false, mk("the retried call failed as well: " + err.Error())
+		}
+	}
+	if err := s.Apply(explore.Op{Kind: explore.Put, Key: "b"}); err != nil {
+		return false, mk("Put(b) after the retry: " + err.Error())
+	}
+	if s.Panicked != "" {
+		return false, mk(s.Panicked)
+	}
+	vi, verr := s.DB.VerifIndex()
+	if verr != nil {
+		_ = s.DB.Close()
+		return false, mk("index walk: " + verr.Error())
+	}
+	segs := s.DB.VerifSegments()
+	seed := s.DB.VerifHashSeed()
+	if err := s.DB.Close(); err != nil {
+		return false, mk("Close: " + err.Error())
+	}
+	s.DB = nil
+	c.Add("directories_decoded", 1)
+	c.Distinct("outcome", explore.Hash64("fw", bname, cfg, s.FS.Hash()))
+	if msg := formatOracle(s, vi, segs, seed); msg != "" {
+		return false, mk(msg)
+	}
+	return false, nil
+}
+
 func loadGoldenManifest() (map[string]*goldenEntry, error) {
 	data, err := os.ReadFile(filepath.Join(explore.VerifDir, "golden", "manifest.json"))
 	if err != nil {
@@ -416,6 +499,31 @@ func runC18(c *explore.Ctx) {
 		}
 		c.Sample(map[string]interface{}{"golden_directory": n, "note": manifest[n].Note, "keys": manifest[n].Count, "clean": manifest[n].Clean})
 	}
+	// write side under transient I/O errors
+	for _, x := range [][2]string{{"E", "BIGC"}, {"CH", "BIGC"}, {"S2", "ROLL"}} {
+		base, err := explore.GetBase(x[0], cfgByName(x[1]), 0)
+		if err != nil {
+			c.HarnessError("%v", err)
+		}
+		explore.PinSeed(0)
+		for _, o := range []explore.Op{{Kind: explore.Put, Key: "a"}, {Kind: explore.Put, Key: "b"}, {Kind: explore.Delete, Key: "a"}} {
+			if !c.Mine() {
+				continue
+			}
+			for _, part := range []bool{false, true} {
+				for n := 1; n < 100; n++ {
+					done, v := c18FaultWord(c, base, x[0], x[1], o, n, part)
+					if v != nil {
+						c.Violation(*v)
+						return
+					}
+					if done {
+						break
+					}
+				}
+			}
+		}
+	}
 	// write side
 	type sp struct {
 		base, cfg string
@@ -453,7 +561,7 @@ func init() {
 		Prop:  "C18",
 		Level: "exploration",
 		Rule: "read side: every directory of the committed golden corpus written by the pinned commit (empty; one key; 255 one-byte keys; 3000 keys with several index levels, split pointer mid-level, overflow chains and free overflow buckets; rolled-over log with overwrites, deletes and delete records; after a partial compaction with reused segment ids out of sequence order; zero-length/65535-byte keys and 0/64 KiB values; emptied and re-seeded; through fs.OS and fs.OSMMap; cleanly closed and unclean incl. a torn tail) is opened by the current build: recovery iff unclean, Count, every key/value by scan and by Get, structural index walk, then a Put + Delete + clean restart + unclean restart. " +
-			"write side: after every word of length d over the C01 alphabet + Reopen from chained/split/rolled bases and a clean Close: an independent reader of docs/design.md accounts for every byte of every segment, names match %05d-%d.psg with distinct sequence ids, replay in sequence order == model, main.pix/overflow.pix decode (31 x 16-byte LE slots + 8-byte next per 512-byte bucket) == index dump, index.pmt/db.pmt/<segment>.pmt decode with independently declared gob structs of the pinned field names == dump. distinct_nontrivial = golden directories + distinct written directory images",
+			"write side: after every word of length d over the C01 alphabet + Reopen from chained/split/rolled bases and a clean Close: an independent reader of docs/design.md accounts for every byte of every segment, names match %05d-%d.psg with distinct sequence ids, replay in sequence order == model, main.pix/overflow.pix decode (31 x 16-byte LE slots + 8-byte next per 512-byte bucket) == index dump, index.pmt/db.pmt/<segment>.pmt decode with independently declared gob structs of the pinned field names == dump. distinct_nontrivial = golden directories + distinct written directory images; write side under I/O errors: from E/CH (segment padded so that the next record straddles a sector boundary) and S2/ROLL, Put(a)/Put(b)/Delete(a) with a transient error at every mutating file-system call (nothing written / written up to the last 512-byte-aligned offset inside the write), the call retried, Put(b), clean Close: same format oracle",
 		Assumptions:   []string{"the corpus is finite (14 directories) and was generated once from the pinned commit (tools/golden/gen.sh); 'all databases ever written' is not a quantifier this check exhausts", "gob metadata has no documented format: it is pinned by field names and by the corpus"},
 		QuickBudget:   100 * time.Second,
 		ThorBudget:    25 * time.Minute,
